@@ -83,3 +83,15 @@ claim("C12",
   "Decides for all network-chosen lengths at once that the extractor's offsets and skip table line up with the message layout (they are linear in the variable lengths, and the linear forms are compared, so QoS-rule or container lengths cannot shift them), that the IE walks step over whole elements, and - for arbitrary input - that every back edge of both loops strictly advances the index, which is the termination clause of the property.",
   "Level 'other'. Not decided: equality of extracted values for encodings outside the assumed APER shape (length determinants >= 128), panics on truncated input (termination by panic). R12.pos (ProtocolIEs.List[2]) is informational only.",
   "DESIGN.md §5 C12")
+
+claim("C03",
+  "schema model of all ngapType structs from go/types (struct tags parsed with the codec's own vocabulary; CHOICE/ENUMERATED/open-type consistency; IE ids and procedure codes against TS 38.413 tables), path-sensitive lost-error analysis over the encoder's SSA, bit-provenance of the emitted length-determinant octets under interval-derived value ranges, encoder/decoder clone comparison of guard chains and loops, never-initialised-global analysis",
+  "Decides for all values at once the inputs and discipline canonical encoding depends on: the constraint metadata of all 1431 types is well formed, internally consistent and equal to TS 38.413 for the emulator-path types and for every IE id / procedure code; no refusal (out-of-range, wrong size, unset CHOICE) can be lost inside the encoder; the length determinant has exactly the X.691 10.9 forms with the right thresholds; INTEGER octet counting distinguishes the constrained and unconstrained cases; BIT STRING padding bits are cleared; and the encoder agrees with the decoder wherever the two are clones.",
+  "Level 'other'. Not decided: that every primitive's bit pattern equals X.691 for every value (no independent encoder is run). TS 38.413 tables were transcribed by hand.",
+  "DESIGN.md §5 C03")
+
+claim("C04",
+  "single-tag-parser and who-writes-constraints analysis, schema dispatch uniqueness (shared with C03), acyclicity of the type graph, encoder/decoder clone comparison, bit-provenance of the length-determinant decoder, SEQUENCE OF lower-bound symmetry",
+  "Decides the structural preconditions of decode(encode(x)) = x over the whole schema: both directions see the same constraints (one parser, one tag key, equal top-level strings), the open-type dispatch is unambiguous (unique reference values equal to IE ids / procedure codes, earlier reference field, Present = position), the schema is acyclic, mirrored primitives agree in every cloned guard and loop, the length decoder inverts the length encoder form by form, and SEQUENCE OF counts are offset by the lower bound on exactly the same branches.",
+  "Level 'other'. Not decided: value equality of a round trip for every value; acceptance of other encoders' output beyond these facts.",
+  "DESIGN.md §5 C04")
